@@ -4,17 +4,44 @@
    (a slice/index/assert without a preceding length check is a Panic).
    Full statement per decoder X:   forall bs site, decode_X bs <> Panic site.
    Where the pinned code violates it: X_total_refuted (concrete witness), and
-   the positive theorem guarded by the specific class Known_C10_X. *)
-From Saito Require Import Base Bytes BytesProofs Codec CodecProofs CodecTotalProofs.
+   the positive theorem guarded by the specific decidable class Known_C10_X
+   (known_c10_X in model/Codec.v). *)
+From Saito Require Import Base Bytes BytesProofs Codec CodecProofs CodecMsgProofs CodecTotalProofs.
 
-(* ---------------- Slip, Hop: total ---------------- *)
+(* ============ decoders that are total on the pinned code ============ *)
 Theorem C10_slip_total : forall bs site, decode_slip bs <> Panic site.
 Proof. exact slip_total. Qed.
 
 Theorem C10_hop_total : forall bs site, decode_hop bs <> Panic site.
 Proof. exact hop_total. Qed.
 
-(* ---------------- Transaction ---------------- *)
+(* Block::deserialize_from_net checks the declared extent of every transaction
+   before slicing it, so the inner transaction decoder only sees exact buffers *)
+Theorem C10_block_total : forall bs site, decode_block bs <> Panic site.
+Proof. exact block_total. Qed.
+
+Theorem C10_version_total : forall bs site, decode_version bs <> Panic site.
+Proof. exact version_total. Qed.
+
+Theorem C10_services_total : forall bs site, decode_services bs <> Panic site.
+Proof. exact services_total. Qed.
+
+Theorem C10_hs_challenge_total : forall bs site, decode_hs_challenge bs <> Panic site.
+Proof. exact hs_challenge_total. Qed.
+
+Theorem C10_hs_response_total : forall bs site, decode_hs_response bs <> Panic site.
+Proof. exact hs_response_total. Qed.
+
+Theorem C10_bc_request_total : forall bs site, decode_bc_request bs <> Panic site.
+Proof. exact bc_request_total. Qed.
+
+(* a strict prefix of a valid block encoding is rejected with Err (torn write) *)
+Theorem C10_block_prefix_rejected : forall bt b k,
+  wf_block b = true -> (k < length (encode_block bt b))%nat ->
+  decode_block (firstn k (encode_block bt b)) = Err.
+Proof. exact block_prefix_rejected. Qed.
+
+(* ============ Transaction ============ *)
 (* Known class: the 93-byte header is present and declares (inputs, outputs,
    message length, hops) more bytes than the buffer holds. *)
 Definition Known_C10_tx (bs : list N) : Prop := known_c10_tx bs = true.
@@ -38,13 +65,101 @@ Qed.
 Theorem C10_tx_fuel_ok : forall bs, decode_tx bs <> Panic 0.
 Proof. exact tx_fuel_ok. Qed.
 
-(* non-vacuity: inputs outside the class on which the decoder does run its loops *)
-Example C10_example_tx_outside_known :
-  let bs := [0; 0; 0; 1; 0; 0; 0; 0; 0; 0; 0; 2; 0; 0; 0; 0] ++ repeat 0 77 ++ repeat 1 58 ++ [99; 5; 6] in
-  known_c10_tx bs = false /\ decode_tx bs = Err.
-Proof. vm_compute. split; reflexivity. Qed.
+(* ============ GhostChainSync ============ *)
+(* Known class: shorter than 36 + 82 * count (count = u32 at offset 32), in
+   particular every buffer shorter than 36 bytes *)
+Definition Known_C10_ghost (bs : list N) : Prop := known_c10_ghost bs = true.
 
-Print Assumptions C10_slip_total.
-Print Assumptions C10_hop_total.
+Theorem C10_ghost_total_refuted : exists bs site, decode_ghost bs = Panic site.
+Proof. exact ghost_total_refuted. Qed.
+
+Theorem C10_ghost_total_refuted_count :
+  exists site, decode_ghost (repeat 0 32 ++ [255; 255; 255; 255]) = Panic site.
+Proof. exact ghost_total_refuted_count. Qed.
+
+Theorem C10_ghost_total : forall bs site, ~ Known_C10_ghost bs -> decode_ghost bs <> Panic site.
+Proof.
+  intros bs site K. apply ghost_total_guarded. unfold Known_C10_ghost in K.
+  destruct (known_c10_ghost bs); [contradiction|reflexivity].
+Qed.
+
+(* ============ ApiMessage ============ *)
+Definition Known_C10_api (bs : list N) : Prop := known_c10_api bs = true.   (* fewer than 4 bytes *)
+
+Theorem C10_api_total_refuted : exists bs site, decode_api bs = Panic site.
+Proof. exact api_total_refuted. Qed.
+
+Theorem C10_api_total : forall bs site, ~ Known_C10_api bs -> decode_api bs <> Panic site.
+Proof.
+  intros bs site K. apply api_total_guarded. unfold Known_C10_api in K.
+  destruct (known_c10_api bs); [contradiction|reflexivity].
+Qed.
+
+(* Message::deserialize guards its three ApiMessage call sites with len >= 4 *)
+Theorem C10_api_guarded_total : forall bs site, decode_api_guarded bs <> Panic site.
+Proof. exact api_guarded_total. Qed.
+
+(* ============ GoldenTicket ============ *)
+Definition Known_C10_gt (bs : list N) : Prop := known_c10_gt bs = true.     (* length <> 97 *)
+
+Theorem C10_gt_total_refuted : exists bs site, decode_gt bs = Panic site.
+Proof. exact gt_total_refuted. Qed.
+
+Theorem C10_gt_total : forall bs site, ~ Known_C10_gt bs -> decode_gt bs <> Panic site.
+Proof.
+  intros bs site K. apply gt_total_guarded. unfold Known_C10_gt in K.
+  destruct (known_c10_gt bs); [contradiction|reflexivity].
+Qed.
+
+(* the class is exact *)
+Theorem C10_gt_panic_iff : forall bs, (exists site, decode_gt bs = Panic site) <-> Known_C10_gt bs.
+Proof. exact gt_panic_iff. Qed.
+
+(* ============ Wallet::deserialize_from_disk ============ *)
+Definition Known_C10_wallet (bs : list N) : Prop := known_c10_wallet bs = true.   (* fewer than 65 bytes *)
+
+Theorem C10_wallet_total_refuted : exists bs site, decode_wallet bs = Panic site.
+Proof. exact wallet_total_refuted. Qed.
+
+Theorem C10_wallet_total : forall bs site, ~ Known_C10_wallet bs -> decode_wallet bs <> Panic site.
+Proof.
+  intros bs site K. apply wallet_total_guarded. unfold Known_C10_wallet in K.
+  destruct (known_c10_wallet bs); [contradiction|reflexivity].
+Qed.
+
+Theorem C10_wallet_panic_iff : forall bs,
+  (exists site, decode_wallet bs = Panic site) <-> Known_C10_wallet bs.
+Proof. exact wallet_panic_iff. Qed.
+
+(* ============ Message::deserialize (everything a peer can send) ============ *)
+(* Known class: tag 4 with a payload in Known_C10_tx, or tag 10 with a payload
+   in Known_C10_ghost; every other tag and payload is handled without panic *)
+Definition Known_C10_message (bs : list N) : Prop := known_c10_message bs = true.
+
+Theorem C10_message_total_refuted : exists bs site, decode_message bs = Panic site.
+Proof. exact message_total_refuted. Qed.
+
+Theorem C10_message_total_refuted_tx : exists site, decode_message (4 :: tx_panic_witness) = Panic site.
+Proof. exact message_total_refuted_tx. Qed.
+
+Theorem C10_message_total : forall bs site, ~ Known_C10_message bs -> decode_message bs <> Panic site.
+Proof.
+  intros bs site K. apply message_total_guarded. unfold Known_C10_message in K.
+  destruct (known_c10_message bs); [contradiction|reflexivity].
+Qed.
+
+(* non-vacuity: inputs outside the classes on which the decoders do run their loops *)
+Example C10_example_outside_known :
+  let bs := [0; 0; 0; 1; 0; 0; 0; 0; 0; 0; 0; 2; 0; 0; 0; 0] ++ repeat 0 77 ++ repeat 1 58 ++ [99; 5; 6] in
+  known_c10_tx bs = false /\ decode_tx bs = Err
+  /\ known_c10_message (4 :: bs) = false /\ decode_message (4 :: bs) = Err
+  /\ known_c10_message (10 :: repeat 0 36) = false
+  /\ class_of (decode_message (10 :: repeat 0 36)) = 0.
+Proof. vm_compute. repeat split; reflexivity. Qed.
+
+Print Assumptions C10_block_total.
+Print Assumptions C10_block_prefix_rejected.
 Print Assumptions C10_tx_total.
-Print Assumptions C10_tx_total_refuted.
+Print Assumptions C10_ghost_total.
+Print Assumptions C10_message_total.
+Print Assumptions C10_hs_response_total.
